@@ -79,6 +79,23 @@ def evWalk (env : Env) (ts : Addr) : State → List Log → Nat × Bool
       ((if Spec.idxEq s s' then n else n + 1), st)
     | (_, false) => (0, true)
 
+/-- per-log outcome classes of the model's event loop (coverage only; printed on `C` lines the runner ignores) -/
+def evClasses (env : Env) (ts : Addr) : State → List Log → List String
+  | _, [] => []
+  | s, l :: ls =>
+    let cls : String :=
+      if l.topic = .none then "skip-notopic"
+      else if l.emitter ≠ ts then "skip-foreign"
+      else match l.topic with
+        | .unknown => "stop-unknown-topic"
+        | .other => "skip-other-event"
+        | .register => (match registerEvent env s l.payload with | .ok _ => "reg-ok" | .error e => "reg-rej:" ++ (rejName e).replace " " "_")
+        | .assign => (match updateEvent env s l.payload with | .ok _ => "asg-ok" | .error e => "asg-rej:" ++ (rejName e).replace " " "_")
+        | .none => "skip-notopic"
+    match handleLog env ts s l with
+    | (s', true) => cls :: evClasses env ts s' ls
+    | (_, false) => [cls] ++ ls.map (fun _ => "dropped-after-stop")
+
 def magnitude (n : Nat) : String :=
   if n = 0 then "zero" else if n < 2 ^ 128 then "norm" else if n < 2 ^ 255 then "huge" else "edge"
 
@@ -151,14 +168,32 @@ def processLine (acc : Acc) (line : String) : Acc :=
           (if modelPost.params != implPost.params || modelPost.turnstile != implPost.turnstile then ["params"] else [])
         let tr : Spec.Tr := { env := acc.env, pre := acc.cur, op := op, ok := implOk, post := implPost }
         let viol := Spec.monitors.filterMap (fun (pid, name, f) => if f tr then none else some s!"{seq} V {pid} {name}")
-        let tag := s!"{branchOf acc.env acc.cur op}/{if implOk then "ok" else "rej"}/{opMagnitude op}"
+        let modelRej := modelRej.replace " " "_"
+        let br := if implOk || modelOk then branchOf acc.env acc.cur op
+                  else (match op with
+                        | .postTx _ gu gp _ =>
+                          "hook-rej-" ++
+                            (if gp ≥ intBound then "gasprice-over-256-bits" else if gu * gp ≥ intBound then "fee-over-256-bits"
+                             else if acc.cur.params.enabled && acc.cur.turnstile.isSome &&
+                                     acc.cur.bank.get acc.env.feeCollector acc.env.denom < gu * gp then "collector-short"
+                             else if modelRej == "overflow" && gu * gp * acc.cur.params.share ≥ Dec.decBound then "dec-over-315-bits"
+                             else if modelRej == "overflow" then "revenue-or-balance-over-256-bits"
+                             else modelRej)
+                        | .setParams _ _ _ => "setparams-rej-" ++ modelRej
+                        | .send _ _ _ _ => "send-rej-" ++ modelRej)
+        let tag := s!"{br}/{if implOk then "ok" else "rej"}/{opMagnitude op}"
+        let cov : Array String :=
+          match op, acc.cur.turnstile with
+          | .postTx _ _ _ logs, some ts =>
+            if acc.cur.params.enabled && !logs.isEmpty then #[s!"{seq} C {" ".intercalate (evClasses acc.env ts acc.cur logs)}"] else #[]
+          | _, _ => #[]
         let l :=
           if comps.isEmpty then s!"{seq} A {tag}"
           else s!"{seq} D {tag} comps={",".intercalate comps} model={if modelOk then "ok" else "rej:" ++ modelRej} impl={implClass} " ++
                (if comps.contains "bank" then bankDiff modelPost.bank implPost.bank ++ " " else "") ++
                (if comps.contains "registry" then s!"modelCsrs=[{showCsrs modelPost}] implCsrs=[{showCsrs implPost}] modelIdx=[{showIdx modelPost}] implIdx=[{showIdx implPost}] " else "") ++
                (if comps.contains "turnstile" then s!"modelTsb=[{showTsb modelPost}] implTsb=[{showTsb implPost}] " else "")
-        { acc with cur := implPost, out := (acc.out.push l) ++ viol.toArray }
+        { acc with cur := implPost, out := (acc.out.push l) ++ viol.toArray ++ cov }
     | _ => { acc with out := acc.out.push "? E malformed" }
   else acc
 
